@@ -6,7 +6,7 @@ A script is a list of tuples; the same alphabet is understood by the Coq model
   ("open",) ("close",) ("send", k, pol) ("send2", k1, pol1, k2, pol2)
   ("adv", ticks) ("net", accept, latency_ticks) ("eof",) ("rst",)
   ("frame", j) ("bad", kind) ("failw",) ("reset",) ("subraise", flag)
-and, outside the model (monitors only): ("bp", on) ("subsend", k, pol) ("sendclose", k, pol) ("trunc", j, cut) ("burn", next_id) ("cancelsends",) ("cancelclose",) ("lostparked",)
+and, outside the model (monitors only): ("bp", on) ("subsend", k, pol) ("sendclose", k, pol) ("trunc", j, cut) ("burn", next_id) ("cancelsends",) ("cancelclose",) ("lostparked",) ("subsenddown", k, pol)
 
 The result is one list of canonical events per stimulus.
 """
@@ -276,6 +276,11 @@ class SockRunner:
 
     async def _conn_changed(self, *, connected: bool) -> None:
         self.events.append(("notify", bool(connected)))
+        if not connected and getattr(self, "sub_send_down", None) is not None:
+            # one-shot: a subscriber reacting to the disconnected notification by sending (re-entrancy into the client)
+            (k, pol), self.sub_send_down = self.sub_send_down, None
+            self.events.append(("downsend",))
+            await self._do_send(k, pol)
         if connected and self.sub_send is not None:
             # a connection subscriber that sends when the link comes up (as the API classes do)
             k, pol = self.sub_send
@@ -454,6 +459,8 @@ class SockRunner:
             self.sub_raise = bool(st[1])
         elif kind == "subsend":
             self.sub_send = (st[1], st[2]) if st[1] >= 0 else None
+        elif kind == "subsenddown":
+            self.sub_send_down = (st[1], st[2])
         elif kind == "sendclose":
             # another task calls send() at the moment the client closes its transport (teardown window of
             # reset_connection / of the read loop after a fault): one-shot
